@@ -23,6 +23,17 @@ Section Amap.
   Definition am_update (m e : list (K * V)) : list (K * V) :=
     fold_left (fun acc kv => am_set acc (fst kv) (snd kv)) e m.
 
+  (* the value the last item with key k carries *)
+  Fixpoint am_last (k : K) (l : list (K * V)) : option V :=
+    match l with
+    | [] => None
+    | (k', v) :: r =>
+        match am_last k r with
+        | Some v' => Some v'
+        | None => if eqb k k' then Some v else None
+        end
+    end.
+
   Definition am_mem (m : list (K * V)) (k : K) : bool :=
     match am_get m k with Some _ => true | None => false end.
 End Amap.
